@@ -2,24 +2,54 @@ package recovery
 
 import (
 	"encoding/json"
+	"fmt"
 	"io"
+	"slices"
 )
 
+// ListFiles lists the files referenced by the latest checkpoint in a
+// checkpoints file.
 func ListFiles(reader io.Reader) ([]string, error) {
-	// Decode reader data into checkpoint list JSON document
-	data, err := io.ReadAll(reader)
+	listDoc, err := readCheckpointListDocument(reader)
+	if err != nil {
+		return nil, err
+	}
+	// Always use the latest checkpoint
+	return listDoc.Checkpoints[len(listDoc.Checkpoints)-1].fileURIs(), nil
+}
+
+// ListCheckpointFiles lists the files referenced by the checkpoint with the
+// given ID in a checkpoints file. A checkpoints file can hold several
+// checkpoints, each with its own WAL and set of tables, so callers that work on
+// behalf of a specific checkpoint must ask for that one.
+func ListCheckpointFiles(reader io.Reader, checkpointID uint64) ([]string, error) {
+	listDoc, err := readCheckpointListDocument(reader)
 	if err != nil {
 		return nil, err
 	}
 
-	listDoc := checkpointListDocument{}
-	if err := json.Unmarshal(data, &listDoc); err != nil {
-		return nil, err
+	i := slices.IndexFunc(listDoc.Checkpoints, func(doc checkpointDocument) bool {
+		return doc.ID == checkpointID
+	})
+	if i == -1 {
+		return nil, fmt.Errorf("checkpoint %d not found in checkpoints file", checkpointID)
 	}
+	return listDoc.Checkpoints[i].fileURIs(), nil
+}
 
-	// Always use the latest checkpoint
-	ckpt := listDoc.Checkpoints[len(listDoc.Checkpoints)-1]
+// Decode reader data into checkpoint list JSON document
+func readCheckpointListDocument(reader io.Reader) (checkpointListDocument, error) {
+	listDoc := checkpointListDocument{}
+	data, err := io.ReadAll(reader)
+	if err != nil {
+		return listDoc, err
+	}
+	err = json.Unmarshal(data, &listDoc)
+	return listDoc, err
+}
 
+// The URIs of the WAL and table files that the checkpoint needs.
+func (ckpt checkpointDocument) fileURIs() []string {
 	fileNames := []string{}
 
 	// Add WAL file names to output
@@ -34,5 +64,5 @@ func ListFiles(reader io.Reader) ([]string, error) {
 		}
 	}
 
-	return fileNames, nil
+	return fileNames
 }
